@@ -96,6 +96,17 @@ class TimingProbe(Probe):
     def after(self, run, i, cmd, ans):
         fails = []
         a = progs.api()
+        if cmd[0] == 'flatten':
+            # flatten() re-adds every listed operation to a fresh graph: an operation with a group relation is hung under the member
+            # that ends latest NOW (the durations may have changed since it was first placed) — the remembered tree parent is
+            # refreshed (false alarm of the thorough soak, seed 2: placed under the measurement, duration change, flatten, placed
+            # under the other member)
+            for o in graph_nodes(run.circs[cmd[1]].circuit_structure):
+                if id(o) in self.placed_under and isinstance(o.relation_link, a.MultiRelationLink):
+                    try:
+                        self.placed_under[id(o)] = (o, o.relation_link.reference_node)
+                    except RecursionError:
+                        pass
         if cmd[0] == 'op' and self.pre is not None:
             nodes, depth = self.pre
             op = run.handles[-1]
